@@ -93,6 +93,9 @@ def clause(acc, la, sa, a, lb, sb, b, ab):
     elif op == "lit" and isinstance(sb, str) and lb.startswith("raw:") and sb in ("int", "str", "O") and \
             all(type(v).__name__ == sb or sb == "O" for v in sa[1:]):
         exp, why = Order.LESS, "literal-vs-bound"
+    elif op == "tgen" and la.startswith("raw:") and lb.startswith("raw:") and not isinstance(sb, str) and (
+            (sa[1] != "type" and sb[0] == "gen" and sb[1:] == sa[1:]) or (sa[1] == "type" and sb[0] == "type" and sb[1:] == sa[2:])):
+        exp, why = Order.SAME, "two-spellings-of-one-generic"
     elif op == "tuple" and sb == "tuple?":
         pass
     elif op == "gen" and isinstance(sb, str) and lb.startswith("raw:") and sb == sa[1]:
@@ -292,7 +295,7 @@ def main(tier):
              "hierarchy with a chain, a diamond, an unrelated class, an ABC with a virtual subclass, a protocol, int, str; raw "
              "annotations and their normal forms; checked: reflexivity, mirror symmetry, no exception, and the named clauses on "
              "the sub-families they name (classes = issubclass incl. all triples for transitivity; generic vs origin and "
-             "argument-wise; union / intersection vs member; dependent vs bound); plus histories in which the subclass relation "
+             "argument-wise; union / intersection vs member; dependent vs bound; the typing and the builtin spelling of one generic are the same); plus histories in which the subclass relation "
              "itself changes between comparisons (a fresh world of 6 classes: ABC, sub-ABC, runtime protocol, chain of 2, unrelated; "
              "events = register a virtual subclass / a class gains the protocol's method; every sequence of 1-2 distinct events; "
              "before them no comparison, one comparison (every ordered pair; thorough: in every wrapping) or all; after every "
